@@ -643,6 +643,37 @@ pub fn eval(ms: &ModuleSet, stream_salt: u64) -> Verdict {
             }
         }
     }
+    // parameterized types whose own linking fails (they instantiate themselves, or a template
+    // nobody defines), with dummy references spelled like flawless top-level definitions: the
+    // failure of the template is reported, the definitions next to it are not lost with it
+    {
+        let mut var = ms.clone();
+        for t in [
+            "Zt-Elem ::= BOOLEAN",
+            "zt-max INTEGER ::= 16",
+            "Zt-Other ::= SEQUENCE { e Zt-Elem , n INTEGER ( 0 .. zt-max ) }",
+            "Zt-List { Zt-Elem } ::= SEQUENCE { head Zt-Elem , tail Zt-List { Zt-Elem } OPTIONAL }",
+            "Zt-Wrap { Zt-Elem } ::= SEQUENCE { body Zt-Nowhere { Zt-Elem } }",
+            "Zt-Chain { INTEGER : zt-max } ::= SEQUENCE { size INTEGER ( 0 .. zt-max ) , next Zt-Chain { zt-max } OPTIONAL }",
+        ] {
+            let name = t.split_whitespace().next().unwrap();
+            var.modules[0].items.push(raw(name, t, if name == "zt-max" { "plain-value" } else { "template-neighbour" }));
+        }
+        if let Ok(vc) = compile(&var) {
+            if let Some((kind, d)) = accounting(&var, &vc, &BTreeSet::new()) {
+                if classify(&kind).is_none() {
+                    return Verdict::Fail { key: format!("accounting-template:{kind}"), finding: None, what: format!("unaccounted definition next to parameterized types that fail to link: {d}"), observed: json!({"variant": print(&var), "detail": d}), nontrivial: true };
+                }
+            }
+            if let Outcome::Ok(tc) = comp::compile_ts(&[print(&var)]) {
+                if let Some((kind, d)) = accounting_ts(&var, &tc.generated, &tc.warnings) {
+                    if kind != "reloid-value" && kind != "real-value" {
+                        return Verdict::Fail { key: format!("accounting-template-ts:{kind}"), finding: None, what: format!("unaccounted definition next to parameterized types that fail to link (TypeScript backend): {d}"), observed: json!({"variant": print(&var), "detail": d, "backend": "typescript"}), nontrivial: true };
+                    }
+                }
+            }
+        }
+    }
     // replacement choices are a pure function of the model (so that shrinking re-derives them)
     let h = crate::ev::hash_str(&print(ms)) ^ stream_salt;
     let seeds: Vec<u32> = (0..64).map(|i| ((h.rotate_left(i * 7) ^ (i as u64).wrapping_mul(0x9e3779b97f4a7c15)) & 0xffff_ffff) as u32).collect();
